@@ -9,7 +9,7 @@ use grin_core::consensus;
 use grin_core::core::hash::{Hash, Hashed};
 use grin_core::core::{Block, KernelFeatures, Transaction};
 use grin_core::global;
-use std::collections::{BTreeMap, HashMap};
+use std::collections::{BTreeMap, HashMap, HashSet};
 
 #[derive(Clone, Debug)]
 pub struct TreeCfg {
@@ -24,6 +24,10 @@ pub struct TreeCfg {
 	/// if set, fork points and forged-block parents are restricted to blocks at
 	/// most this many blocks below the trunk tip (reorgs that stay inside the horizon)
 	pub fork_window: Option<u64>,
+	/// probability (per mille) that a block first takes over transactions already mined on ANOTHER fork (what
+	/// competing miners do with the same pool): the same outputs then exist on several forks, usually at other
+	/// MMR positions. 0 (the default) draws nothing from the PRNG, so every existing world stays as it was.
+	pub remine_per_mille: u64,
 }
 
 impl TreeCfg {
@@ -36,6 +40,7 @@ impl TreeCfg {
 			real_pow: false,
 			n_invalid: 4,
 			fork_window: None,
+			remine_per_mille: 0,
 		}
 	}
 }
@@ -69,6 +74,10 @@ pub struct Hist {
 	/// canonical order differs from the commit-only order the database stores). Chosen by a bit of the
 	/// block hash, so the PRNG stream — and every world — is the same with and without it.
 	pub v2_inputs: bool,
+	/// see `TreeCfg::remine_per_mille`
+	pub remine_per_mille: u64,
+	/// the transactions every honest block was made of (generation time only, not persisted)
+	pub block_txs: HashMap<Hash, Vec<Transaction>>,
 }
 
 fn ckey(c: &Coin) -> Vec<u8> {
@@ -92,7 +101,51 @@ impl Hist {
 			real_pow,
 			prng: Prng::new(seed ^ 0x4849_5354),
 			v2_inputs: false,
+			remine_per_mille: 0,
+			block_txs: HashMap::new(),
 		}
+	}
+
+	/// Transactions mined on other forks (not on `parent`'s ancestry) that are valid on top of `parent`: every input
+	/// spendable there, no output re-creating an unspent commitment, no two of them sharing an input.
+	fn remine_candidates(&mut self, parent: &Hash) -> Vec<Transaction> {
+		let anc: HashSet<Hash> = self.ledger.ancestry(parent).into_iter().collect();
+		let st = self.ledger.state_at(parent);
+		let spendable: HashSet<Vec<u8>> = self.spendable(parent).iter().map(ckey).collect();
+		let mut taken: HashSet<Vec<u8>> = HashSet::new();
+		let mut out = vec![];
+		for gb in &self.blocks {
+			if anc.contains(&gb.hash) || gb.verdict.is_err() {
+				continue;
+			}
+			if let Some(txs) = self.block_txs.get(&gb.hash) {
+				for tx in txs {
+					let ins: Vec<Vec<u8>> = {
+						let v: Vec<grin_core::core::CommitWrapper> = tx.inputs().into();
+						v.iter().map(|i| i.commitment().0.to_vec()).collect()
+					};
+					if ins.is_empty() || !ins.iter().all(|c| spendable.contains(c) && !taken.contains(c)) {
+						continue;
+					}
+					if tx.outputs().iter().any(|o| st.utxo.contains_key(&o.commitment())) {
+						continue;
+					}
+					if !tx.kernels().iter().all(|k| matches!(k.features, KernelFeatures::Plain { .. })) {
+						continue;
+					}
+					// already mined on this ancestry (its kernel is there)?
+					let kern = tx.kernels()[0].excess;
+					if self.blocks.iter().any(|b| anc.contains(&b.hash) && b.block.kernels().iter().any(|k| k.excess == kern)) {
+						continue;
+					}
+					for c in ins {
+						taken.insert(c);
+					}
+					out.push(tx.clone());
+				}
+			}
+		}
+		out
 	}
 
 	/// Re-encode the block's inputs as (features, commitment) pairs in their own canonical order.
@@ -337,8 +390,22 @@ impl Hist {
 	pub fn honest_block(&mut self, parent: &Hash, tx_per_mille: u64) -> GenBlock {
 		let mut txs = vec![];
 		let mut tags = vec![];
+		let mut remined_inputs: HashSet<Vec<u8>> = HashSet::new();
+		if self.remine_per_mille > 0 && self.prng.chance(self.remine_per_mille, 1000) {
+			let mut cands = self.remine_candidates(parent);
+			cands.truncate(2);
+			for tx in cands {
+				let v: Vec<grin_core::core::CommitWrapper> = tx.inputs().into();
+				for i in v {
+					remined_inputs.insert(i.commitment().0.to_vec());
+				}
+				tags.push("transaction_already_mined_on_another_fork".to_string());
+				txs.push(tx);
+			}
+		}
 		if self.prng.chance(tx_per_mille, 1000) {
 			let mut avail = self.spendable(parent);
+			avail.retain(|c| !remined_inputs.contains(&ckey(c)));
 			self.prng.shuffle(&mut avail);
 			let n_tx = 1 + self.prng.usize_below(2);
 			let mut recreated = false;
@@ -370,7 +437,11 @@ impl Hist {
 				txs.push(self.spend_tx(&ins, n_out, None));
 			}
 		}
-		self.add_block(parent, &txs, "honest", tags)
+		let gb = self.add_block(parent, &txs, "honest", tags);
+		if self.remine_per_mille > 0 {
+			self.block_txs.insert(gb.hash, txs);
+		}
+		gb
 	}
 
 	/// Forged block violating exactly one UTXO rule (header commitments as an
@@ -442,6 +513,7 @@ impl Hist {
 pub fn gen_history(seed: u64, cfg: &TreeCfg) -> Hist {
 	let mut h = Hist::new(seed, cfg.real_pow);
 	h.v2_inputs = true;
+	h.remine_per_mille = cfg.remine_per_mille;
 	let g = h.genesis.hash();
 	let mut trunk = vec![g];
 	for _ in 0..cfg.trunk {
@@ -627,6 +699,8 @@ pub fn hist_from_json(v: &Value) -> Hist {
 		real_pow: v["real_pow"].as_bool().unwrap_or(false),
 		prng: Prng::new(seed ^ 0x4c4f_4144),
 		v2_inputs: v["v2_inputs"].as_bool().unwrap_or(false),
+		remine_per_mille: 0,
+		block_txs: HashMap::new(),
 	}
 }
 
